@@ -919,7 +919,8 @@ Proof.
 Qed.
 
 (* ------------------------------------------------------------------ the whole-program theorems for valid programs *)
-From PV Require Spec.LuaGrammar Proofs.ParserComplete2 Proofs.ValidDomain1 Proofs.ValidDomainLex Proofs.ValidDomainC10.
+From PV Require Spec.LuaGrammar Proofs.ParserComplete2 Proofs.ValidDomain1 Proofs.ValidDomainLex Proofs.ValidDomainC10
+  Proofs.ValidDomainIdem1 Proofs.ValidDomainIdem2.
 
 (* The theorems above ask of the token list: parsed to its end, tree inside the writer domain, no trailing field separator.
    For a VALID program these follow from a derivation in the reference grammar (C09_valid_in_domain and its variant with
@@ -965,9 +966,9 @@ Print Assumptions C10_reindent_invariant_valid.
 
 (* idempotence for valid programs, partial: the first pass needs no hypothesis about parser or writer; for the second pass
    the parser / domain hypotheses of C10_idempotent are replaced by ONE grammar fact: the re-lexed formatted text has a
-   derivation (within the same conditions).  That it has one - the derivation of the input with its leaves re-indexed;
-   line_scoped is kept because nl_before is (C09_luafmt_holds) - is not proved here: re-indexing a derivation along
-   formatted_as needs an induction over all 17 grammar functions (the shape of ParserComplete5.cons_all), not done. *)
+   derivation (within the same conditions).  That it has one (the derivation of the input with its leaves re-indexed,
+   ValidDomainIdem2.output_valid) turns this statement into C10_idempotent_valid below; the partial statement is kept because
+   it applies to ANY derivation of the re-lexed text. *)
 Theorem C10_idempotent_valid_partial : forall w src ss lts g,
   ValidDomainC10.vsrc src ss lts g -> gaps_tidy (map LexToken.lex_token lts) = true ->
   exists root e out ss' lts',
@@ -983,6 +984,30 @@ Theorem C10_idempotent_valid_partial : forall w src ss lts g,
         writer_text (fmt_spaces w) (map LexToken.lex_token lts') (view root') = Ok out.
 Proof. exact ValidDomainC10.idempotent_valid_partial. Qed.
 Print Assumptions C10_idempotent_valid_partial.
+
+(* idempotence for valid programs, in full: luafmt succeeds on a valid program with tidy gaps; the text it writes is lexed
+   (reference lexer and lexer model) and parsed again, and the second pass writes the same text.  No hypothesis about the
+   second pass is left.
+   The derivation the partial theorem asks for is the one of the input with every leaf index i replaced by the index, in the
+   re-lexed output, of the significant token with the same rank (Proofs/ValidDomainIdem1.v rename / reidx).  formatted_as keeps
+   the significant tokens, so every grammar function succeeds on the renamed tree and stream when it succeeds on the original
+   ones (ValidDomainIdem1.sim_all, induction over all the grammar functions of Spec/LuaGrammar.v); flags_ok, excl,
+   g_no_paren_suffix, g_no_trailing_sep read only the shape; leaves_ok reads the token at a leaf; line_scoped is kept because
+   nl_before is (C09_luafmt_holds): newline_in / line_ends_after between significant tokens are functions of the list of
+   (significant index, nl_before flag) pairs, and the renaming is strictly monotone on significant indices
+   (ValidDomainIdem2.v).  So the text luafmt writes for a valid program is again a valid program within the same conditions,
+   with tidy gaps: ValidDomainIdem2.output_valid (vsrc out ss' lts' g' /\ gaps_tidy ts'; its Print Assumptions is in that
+   file, to keep this one's compile time down). *)
+Theorem C10_idempotent_valid : forall w src ss lts g,
+  ValidDomainC10.vsrc src ss lts g -> gaps_tidy (map LexToken.lex_token lts) = true ->
+  exists root e out ss' lts' root' e',
+    lua_parse (map LexToken.lex_token lts) = Ok (root, e) /\
+    writer_text (fmt_spaces w) (map LexToken.lex_token lts) (view root) = Ok out /\ Forall byte out /\
+    LuaLex.spec_lex out = Some ss' /\ Lexer.model_lex [out] = Ok lts' /\
+    lua_parse (map LexToken.lex_token lts') = Ok (root', e') /\
+    writer_text (fmt_spaces w) (map LexToken.lex_token lts') (view root') = Ok out.
+Proof. exact ValidDomainIdem2.idempotent_valid. Qed.
+Print Assumptions C10_idempotent_valid.
 
 (* non-vacuity: the program of C10_idempotent_text_nonvacuous (function, table over two lines, one-line if with else,
    comments of all kinds) satisfies vsrc with the derivation read off the parser model's tree, and the re-lexed output of
@@ -1013,4 +1038,22 @@ Proof.
     { apply Forall_forall. intros x Hx. apply byteb_spec. revert x Hx. apply forallb_forall. vm_compute. reflexivity. }
     split; [vm_compute; reflexivity|]. repeat (split; [vm_compute; reflexivity|]). vm_compute. reflexivity. }
   repeat (split; [vm_compute; reflexivity|]). vm_compute. reflexivity.
+Qed.
+
+(* C10_idempotent_valid applies to that program (width 2): its conclusion, from the theorem; the
+   renamed derivation of the theorem is a derivation of the re-lexed output, by evaluation *)
+Example C10_idempotent_valid_applies :
+  (exists root e out ss' lts' root' e',
+    lua_parse (map LexToken.lex_token C10_v_lts) = Ok (root, e) /\
+    writer_text (fmt_spaces 2) (map LexToken.lex_token C10_v_lts) (view root) = Ok out /\ Forall byte out /\
+    LuaLex.spec_lex out = Some ss' /\ Lexer.model_lex [out] = Ok lts' /\
+    lua_parse (map LexToken.lex_token lts') = Ok (root', e') /\
+    writer_text (fmt_spaces 2) (map LexToken.lex_token lts') (view root') = Ok out) /\
+  LuaGrammar.derives (map LexToken.lex_token C10_v_lts')
+    (ValidDomainIdem1.rename (ValidDomainIdem1.reidx (map LexToken.lex_token C10_v_lts) (map LexToken.lex_token C10_v_lts')) C10_v_g) = true /\
+  LuaGrammar.line_scoped (map LexToken.lex_token C10_v_lts')
+    (ValidDomainIdem1.rename (ValidDomainIdem1.reidx (map LexToken.lex_token C10_v_lts) (map LexToken.lex_token C10_v_lts')) C10_v_g) = true.
+Proof.
+  destruct C10_valid_nonvacuous as ((ss & Hv) & Hg & _).
+  split; [exact (C10_idempotent_valid 2 _ ss _ _ Hv Hg)|]. split; vm_compute; reflexivity.
 Qed.
